@@ -269,6 +269,7 @@ int main(void)
 			unsigned long long base = 1ull << drv_arg(&c, 0);
 			longrun(3, 4, base); longrun(3, 1, base + 1); longrun(7, 12, base + 5); longrun(5, 8, base - 1);
 		}
+		else if (drv_is(&c, "Long1")) longrun(3, 4, (1ull << drv_arg(&c, 0)) + 1);
 		else if (drv_is(&c, "Gen")) gen(drv_arg(&c, 0), drv_arg(&c, 1), drv_arg(&c, 2), drv_arg(&c, 3));
 		else { fprintf(stderr, "mqseq_drv: unknown command %s\n", c.tok[0]); return 3; }
 	}
